@@ -185,12 +185,33 @@ class Ctx:
     def _check(self, *assumptions):
         """feasibility of (path condition and assumptions) on the incremental path solver; when that gives up, the
         query is retried as a final query (fresh solver, abstraction, components)"""
+        if self.def_ids and assumptions and not all(is_light(a) for a in assumptions):
+            # arithmetic over memoised prefix integers: the abstraction pass (definitions dropped, residues bounded) is
+            # the robust way to refute such a branch; the incremental core is erratic on them
+            if self._abstract_unsat(list(self.solver.assertions()), assumptions, 30000):
+                return False
         self.solver.set("timeout", FORK_TIMEOUT_MS)
         r = self._timed(self.solver, *assumptions)
         if r == z3.unknown:
             self.stats.bump("fork_retries")
             return self.final(*assumptions)
         return r == z3.sat
+
+    def _abstract_unsat(self, asserts, assumptions, timeout_ms):
+        abs_asserts = [a for a in asserts if a.get_id() not in self.def_ids] + list(assumptions)
+        M = _moduli_lcm(abs_asserts)
+        if M > 1:
+            subs, extra = [], []
+            for i, (tv, _d) in enumerate(self.def_vars):
+                k, r = z3.Int(f"__k{i}"), z3.Int(f"__r{i}")
+                subs.append((tv, M * k + r))
+                extra += [k >= 0, r >= 0, r < M]
+            abs_asserts = [z3.simplify(z3.substitute(a, *subs)) for a in abs_asserts] + extra
+        r, _ = self._solve_components(abs_asserts, timeout_ms, want_model=False)
+        if r == z3.unsat:
+            self.stats.bump("abs_unsat")
+            return True
+        return False
 
     # ---- cached (replayed) auxiliary answers
     def _aux(self, compute):
@@ -252,18 +273,7 @@ class Ctx:
         if self.def_ids and not expect_sat:
             # every T >= 0 is written as M*k + r (0 <= r < M, k >= 0), M = lcm of the constant moduli in the query:
             # an equivalent reformulation that lets z3 reduce `mod M` terms to the bounded residue r.
-            abs_asserts = [a for a in asserts if a.get_id() not in self.def_ids] + list(assumptions)
-            M = _moduli_lcm(abs_asserts)
-            if M > 1:
-                subs, extra = [], []
-                for i, (tv, _d) in enumerate(self.def_vars):
-                    k, r = z3.Int(f"__k{i}"), z3.Int(f"__r{i}")
-                    subs.append((tv, M * k + r))
-                    extra += [k >= 0, r >= 0, r < M]
-                abs_asserts = [z3.simplify(z3.substitute(a, *subs)) for a in abs_asserts] + extra
-            r, _ = self._solve_components(abs_asserts, min(20000, QUERY_TIMEOUT_MS), want_model=False)
-            if r == z3.unsat:
-                self.stats.bump("abs_unsat")
+            if self._abstract_unsat(asserts, assumptions, min(40000, QUERY_TIMEOUT_MS)):
                 return False
         r, m = self._solve_components(
             asserts + list(assumptions), 4000 if expect_sat else QUERY_TIMEOUT_MS, want_model=True, expect_sat=expect_sat
@@ -302,17 +312,31 @@ class Ctx:
         for comp in sorted(comps, key=len):
             # plain SMT core for mod/div-free components (the default strategy is slow on big range disjunctions)
             light = all(is_light(f) for f in comp)
-            s = z3.SimpleSolver() if (light or expect_sat) else z3.Solver()
-            s.set("timeout", timeout_ms)
-            if self.seed:
-                s.set("random_seed", self.seed % 1000)
-            s.add(comp)
-            r = self._timed(s)
-            if r == z3.unknown and expect_sat and not light:
-                s = z3.Solver()
-                s.set("timeout", timeout_ms)
+            # portfolio: z3 is erratic on the mod-97 components (same formula: 0.1 s or no answer), so several
+            # configurations get a share of the budget; the first definite answer wins
+            if light or expect_sat:
+                attempts = [("simple", 0, 1.0)]
+                if not light:
+                    attempts.append(("default", 0, 1.0))
+            else:
+                attempts = [("default", 0, 0.2), ("simple", 0, 0.15), ("default", 7, 0.15), ("lia", 0, 0.15), ("default", 23, 0.35)]
+            r = z3.unknown
+            for kind, seed, share in attempts:
+                if kind == "simple":
+                    s = z3.SimpleSolver()
+                elif kind == "lia":
+                    s = z3.Then("simplify", "solve-eqs", "smt").solver()
+                else:
+                    s = z3.Solver()
+                s.set("timeout", max(1000, int(timeout_ms * share)))
+                sd = (self.seed + seed) % 1000
+                if sd:
+                    s.set("random_seed", sd)
                 s.add(comp)
                 r = self._timed(s)
+                if r != z3.unknown:
+                    break
+                self.stats.bump("portfolio_retries")
             if r == z3.unsat:
                 return z3.unsat, None
             if r == z3.unknown:
